@@ -342,6 +342,7 @@ pub fn run_check(cfg: &CheckCfg) -> CheckResult {
     let mut stopped_early = false;
     let mut respawns = 0;
     let mut harness_errors = 0u64;
+    let mut episode_digest = 0u64;
     loop {
         match rx.recv_timeout(Duration::from_millis(100)) {
             Ok((id, line)) => {
@@ -353,6 +354,7 @@ pub fn run_check(cfg: &CheckCfg) -> CheckResult {
                             for k in ["evaluations", "episodes", "inconclusive", "violations", "api_calls", "steps", "crash_points", "crash_reopens", "decodes", "audits", "traversals", "bytes_written", "effective_updates"] {
                                 *tot.entry(k.to_string()).or_insert(0) += v[k].as_u64().unwrap_or(0);
                             }
+                            episode_digest = episode_digest.wrapping_add(v["episode_digest"].as_u64().unwrap_or(0));
                             if let Some(a) = v["kernel_calls"].as_array() {
                                 for (i, x) in a.iter().enumerate().take(crate::kernel::NOPS) {
                                     kernel_calls[i] += x.as_u64().unwrap_or(0);
@@ -580,6 +582,7 @@ pub fn run_check(cfg: &CheckCfg) -> CheckResult {
             "traversals": tot.get("traversals").copied().unwrap_or(0),
             "distinct_states": state_sigs.len(),
             "distinct_interleavings": inter_sigs.len(),
+            "episode_digest": episode_digest,
             "runs_per_hour": if explore_wall > 0.0 { (episodes as f64 / explore_wall * 3600.0) as u64 } else { 0 },
             "workers": w,
             "components": {
